@@ -521,6 +521,34 @@ def judge(ctx, case):
         add("script of %s changed" % who, tx=tx_with(lambda t, j=j: t["outs"][j].update(script=t["outs"][j]["script"] + b"\x61")))
     add("output appended", tx=tx_with(lambda t: t["outs"].append({"value": 7, "script": b"\x51"})))
     add("input appended", tx=tx_with(lambda t: t["ins"].append({"txid_wire": b"\x33" * 32, "vout": 0, "script": b"", "seq": 5})))
+    # an OP_CODESEPARATOR executed inside the UNLOCKING part does not move the start of the subscript (the subscript is cut from the
+    # locking script only); the library does not insist on push-only unlocking scripts
+    if not sc.cond:
+        base_un = unlocking_of(sigs)
+        add("code separator in front of the unlocking script", un=[("op", 171)] + base_un)
+        if len(base_un) >= 2:
+            add("code separator in the middle of the unlocking script", un=base_un[:1] + [("op", 171)] + base_un[1:])
+    # explicit-nonce signatures whose r has a ZERO second / third byte (nonce searched with the reference), strict DER, low S
+    if case["seed"] % 4 == 0:
+        for shape in ("r second byte zero", "r third byte zero"):
+            kk_ = None
+            for ctr in range(6000):
+                kc = (case["seed"] * 7919 + ctr * 104729 + 12345) % ec.N or 1
+                rb = (ec.mul_g(kc)[0] % ec.N).to_bytes(32, "big")
+                if rb[0] != 0 and rb[0] < 0x80 and ((shape == "r second byte zero" and rb[1] == 0 and rb[2] < 0x80) or (shape == "r third byte zero" and rb[2] == 0 and rb[1] != 0)):
+                    kk_ = kc
+                    break
+            if kk_ is None:
+                continue
+            zs = []
+            for si in signers:
+                e_ = ec.sign_with_k(sc.keys[si], z0, kk_)
+                if e_ is None:
+                    zs = None
+                    break
+                zs.append(ec.der_encode(e_[0], e_[1]) + bytes([flag]))
+            if zs:
+                add("signature whose %s" % shape, un=unlocking_of(zs))
     add("declared value changed", val=value ^ 1)
     # the spent output's value is NOT declared at all: nothing can be verified (a signature over value 0 included)
     if flag & 0x40:
